@@ -188,8 +188,51 @@ def run(chk):
     chk.check(kinds == {True, False}, key + "/cases", "cases %s" % kinds)
     chk.sample({"play_iteration_summaries": dict((k, dict((str(a), b) for a, b in v.items())) for k, v in summaries.items())})
     repositioning(chk, prog, PL, AYp)
+    return_value(chk, prog, PL, AYp, Sp, UA)
     transposition(chk, prog)
     return chk.finish(EXPL)
+
+
+def return_value(chk, prog, PL, AYp, Sp, UA):
+    """What play() reports: on every path that returns after k generated samples (k = 0, 1, 2 by unrolling; buffer length
+    symbolic, so odd lengths and lengths below one stereo pair are included) the result is exactly the number of buffer
+    elements written, k in mono and 2k in stereo - a caller that advances by the result neither skips an element nor
+    re-reads one, whatever lengths it passes.  (Bounded unrolling: the general k rests on the result being the
+    per-iteration counter, which these three cases and the per-iteration summary above pin down.)"""
+    chk.rule("T-TERM", "Player::play result == elements written (k mono / 2k stereo) on every returning path, k <= 2, symbolic buffer length")
+    fi = lambda n: prog.field_index(PL, n)
+    for stereo in (0, 1):
+        mode = "stereo" if stereo else "mono"
+        key = "T-TERM/Player::play/%s/result" % mode
+        w = Walker(prog, loop_bound=3)
+        w.opaque_paths.add(UA)
+        w.effect_hook = lambda w_, st, path, a, d, wh: EffectResult(tm.sym("HAS_FRAME%d" % sum(1 for e in st.trace if e.path == UA), 1), havoc=False) if path == UA else EffectResult(None, havoc=False)
+        st = w.new_state()
+        pl = w.materialise(SymObj("pl", ("adt", PL, (AYp,))), st)
+        pl = pl.with_field(fi("stereo"), K(stereo, 1))
+        st.store[("h", "pl")] = pl
+        st.store[("h", "buf")] = SymArr("buf", Sp, tm.sym("BUFLEN", 64))
+        try:
+            rs = w.run(prog.fn(prog.fn_path("vtx", "Player::<AY>::play")), [Ref(("h", "pl"), (), True), Ref(("h", "buf"), (), True, tm.sym("BUFLEN", 64))],
+                       genv={"AY": AYp, "S": Sp}, state=st)
+        except Exception as e:
+            chk.undecided_(key, "could not explore: %s" % e)
+            continue
+        seen = set()
+        for r in rs:
+            if r.outcome != "return":
+                continue
+            k = len([e for e in r.trace if e.path.endswith("::next_sample")])
+            outs = len([e for e in r.trace if e.path.endswith("::from_aym_sample")])
+            want = K(outs, 64)
+            ok = isinstance(r.ret, T) and (r.ret is want or (r.ret.is_const() and r.ret.val == outs) or c04.cc_decide(r, tm.cmp("eq", r.ret, want)) is True)
+            chk.check(ok and outs == k * (2 if stereo else 1), key,
+                      "after %d generated sample(s) (%d buffer elements written) play returns %s: the result must be the number of elements written, "
+                      "also when the buffer length is odd or shorter than one pair" % (k, outs, tm.show(r.ret) if isinstance(r.ret, T) else r.ret))
+            seen.add(k)
+            chk.count("play-returns")
+        chk.check({0, 1, 2} <= seen, key + "/cases", "returning paths explored for %s generated samples only" % sorted(seen))
+    chk.floor("play-returns", 8)
 
 
 def repositioning(chk, prog, PL, AYp):
